@@ -404,6 +404,202 @@ fn check_c02<T: Sc>(ctx: &Ctx, c: &Case, su: &Setup<T>, o: &Outcome<T>) {
     });
 }
 
+fn rel_close(a: &[f64], b: &[f64], rel: f64) -> Option<String> {
+    if a.len() != b.len() {
+        return Some(format!("lengths {} vs {}", a.len(), b.len()));
+    }
+    let scale = a.iter().chain(b.iter()).fold(0.0f64, |m, v| m.max(v.abs()));
+    for (x, y) in a.iter().zip(b.iter()) {
+        if !((x - y).abs() <= rel * scale + 1e-300) {
+            return Some(format!("{:e} vs {:e} (relative tolerance {:e}, scale {:e})", x, y, rel, scale));
+        }
+    }
+    None
+}
+
+/// C06 on whole fits: weighted problem vs row-scaled unweighted problem (and unit weights vs none, zero weight vs deleted row)
+fn check_c06_fit<T: Sc>(ctx: &Ctx, c: &Case, su: &Setup<T>) {
+    let cj = || case_json(c);
+    let Some(w) = su.w.clone() else { return };
+    let solver = || c.solver.make::<T>();
+    let build_w = || prob::build(make_t::<T>(&su.spec, c.prov, &su.a0), &su.y, Some(&w), None, su.api, c.par).unwrap();
+    let twin: Box<dyn Prob<T>> = match c.w {
+        WKind::Ones => prob::build(make_t::<T>(&su.spec, c.prov, &su.a0), &su.y, None, None, su.api, c.par).unwrap(),
+        _ => {
+            let mut ys = su.y.clone();
+            for j in 0..ys.ncols() {
+                for i in 0..ys.nrows() {
+                    ys[(i, j)] = ys[(i, j)] * w[i];
+                }
+            }
+            prob::build(RowScaled::wrap(make_t::<T>(&su.spec, c.prov, &su.a0), w.clone()), &ys, None, None, su.api, c.par).unwrap()
+        }
+    };
+    let stats_possible = !c.mrhs_api;
+    let r = guarded(|| {
+        if stats_possible {
+            let (f1, s1) = build_w().fit_stats(solver());
+            let (f2, s2) = twin.fit_stats(solver());
+            (f1, s1, f2, s2)
+        } else {
+            (build_w().fit(solver()), None, twin.fit(solver()), None)
+        }
+    });
+    let (f1, s1, f2, s2) = match r {
+        Ok(x) => x,
+        Err(m) => {
+            ctx.with(|s| {
+                s.violate("C08", "panic:fit", cj(), m);
+                s.inc("blocked_cases");
+            });
+            return;
+        }
+    };
+    ctx.with(|s| s.inc("evaluations"));
+    let tc = |f: &FitOut<T>| term_class(&f.termination);
+    if tc(&f1) != tc(&f2) || f1.was_successful != f2.was_successful {
+        ctx.with(|s| s.violate("C06", "fit-termination-differs", cj(), format!("weighted fit ended {} , row-scaled fit ended {}", f1.termination, f2.termination)));
+        return;
+    }
+    if !f1.was_successful {
+        return;
+    }
+    let a1: Vec<f64> = f1.alpha().iter().map(|v| v.d()).collect();
+    let a2: Vec<f64> = f2.alpha().iter().map(|v| v.d()).collect();
+    let rel = if c.f32_ { 1e-3 } else { 1e-6 };
+    let bitwise = f1.alpha().iter().zip(f2.alpha().iter()).all(|(x, y)| x.bits() == y.bits());
+    ctx.with(|s| s.inc(if bitwise { "twin_fits_bitwise_equal" } else { "twin_fits_within_tolerance" }));
+    if let Some(m) = rel_close(&a1, &a2, rel) {
+        ctx.with(|s| s.violate("C06", "fitted-parameters-differ", cj(), format!("nonlinear parameters: {}", m)));
+        return;
+    }
+    if let (Some(c1), Some(c2)) = (f1.coef(), f2.coef()) {
+        if let Some(m) = rel_close(mat_d(&c1).as_slice(), mat_d(&c2).as_slice(), rel * 10.0) {
+            ctx.with(|s| s.violate("C06", "fitted-coefficients-differ", cj(), format!("linear coefficients: {}", m)));
+        }
+    }
+    if let (Some(r1), Some(r2)) = (f1.problem().residuals(), f2.problem().residuals()) {
+        if let Some(m) = rel_close(vec_d(&r1).as_slice(), vec_d(&r2).as_slice(), rel * 100.0) {
+            ctx.with(|s| s.violate("C06", "final-residuals-differ", cj(), format!("residuals: {}", m)));
+        }
+    }
+    match (s1, s2) {
+        (Some(s1), Some(s2)) => {
+            let (x1, x2) = (s1.reduced_chi2().d(), s2.reduced_chi2().d());
+            if !((x1 - x2).abs() <= rel * 100.0 * x1.abs().max(x2.abs())) {
+                ctx.with(|s| s.violate("C06", "reduced-chi2-differs", cj(), format!("reduced chi2 {:e} (weighted) vs {:e} (row-scaled)", x1, x2)));
+            }
+            let (m1, m2) = (mat_d(s1.covariance_matrix()), mat_d(s2.covariance_matrix()));
+            // both sides invert the same H^T H up to rounding: normwise agreement within K eps kappa(H^T H)
+            let ev = refla::sym_eigvals(&m1);
+            let (emax, emin) = (ev.iter().cloned().fold(0.0, f64::max), ev.iter().cloned().fold(f64::INFINITY, f64::min));
+            let kappa = if emin > 0.0 { emax / emin } else { f64::INFINITY };
+            let tolr = 4096.0 * T::EPS * kappa + rel;
+            if tolr <= 0.25 {
+                if let Some(m) = rel_close(m1.as_slice(), m2.as_slice(), tolr) {
+                    ctx.with(|s| s.violate("C06", "covariance-differs", cj(), format!("covariance: {} (kappa {:e})", m, kappa)));
+                }
+                ctx.with(|s| s.inc("covariances_compared"));
+            }
+            ctx.with(|s| s.inc("statistics_compared"));
+        }
+        (None, None) => {}
+        _ => ctx.with(|s| s.violate("C06", "statistics-availability-differs", cj(), "fit_with_statistics succeeds for only one of the twins".into())),
+    }
+    ctx.with(|s| s.inc("distinct_nontrivial"));
+}
+
+/// C07 on whole fits: permuting the observation columns permutes the coefficient columns and leaves alpha unchanged
+fn check_c07_fit<T: Sc>(ctx: &Ctx, c: &Case, su: &Setup<T>) {
+    let cj = || case_json(c);
+    let s_ = su.y.ncols();
+    if s_ < 2 {
+        return;
+    }
+    let fit_with = |y: &DMatrix<T>| -> FitOut<T> { prob::build(make_t::<T>(&su.spec, c.prov, &su.a0), y, su.w.as_ref(), None, Api::Mrhs, c.par).unwrap().fit(c.solver.make::<T>()) };
+    let base = match guarded(|| fit_with(&su.y)) {
+        Ok(f) => f,
+        Err(m) => {
+            ctx.with(|s| {
+                s.violate("C08", "panic:fit", cj(), m);
+                s.inc("blocked_cases");
+            });
+            return;
+        }
+    };
+    let perms: Vec<Vec<usize>> = if s_ == 2 { vec![vec![1, 0]] } else { vec![vec![1, 0, 2], vec![2, 1, 0], vec![1, 2, 0], vec![2, 0, 1], vec![0, 2, 1]] };
+    for perm in perms {
+        let yp = DMatrix::from_fn(c.n, s_, |i, j| su.y[(i, perm[j])]);
+        let Ok(fp) = guarded(|| fit_with(&yp)) else { continue };
+        ctx.with(|s| s.inc("evaluations"));
+        if fp.was_successful != base.was_successful {
+            ctx.with(|s| s.violate("C07", "permutation-changes-success", cj(), format!("columns permuted by {:?}: {} vs {}", perm, fp.termination, base.termination)));
+            continue;
+        }
+        if !base.was_successful {
+            continue;
+        }
+        let rel = if c.f32_ { 1e-3 } else { 1e-6 };
+        let a1: Vec<f64> = base.alpha().iter().map(|v| v.d()).collect();
+        let a2: Vec<f64> = fp.alpha().iter().map(|v| v.d()).collect();
+        if let Some(m) = rel_close(&a1, &a2, rel) {
+            ctx.with(|s| s.violate("C07", "permutation-changes-fitted-parameters", cj(), format!("columns permuted by {:?}: {}", perm, m)));
+            continue;
+        }
+        if let (Some(c1), Some(c2)) = (base.coef(), fp.coef()) {
+            let c1p = DMatrix::from_fn(c1.nrows(), s_, |i, j| c1[(i, perm[j])].d());
+            if let Some(m) = rel_close(c1p.as_slice(), mat_d(&c2).as_slice(), rel * 10.0) {
+                ctx.with(|s| s.violate("C07", "permutation-does-not-permute-coefficients", cj(), format!("columns permuted by {:?}: {}", perm, m)));
+            }
+        }
+        ctx.with(|s| s.inc("distinct_nontrivial"));
+    }
+}
+
+/// C11 on whole fits: the parallel problem under every pool size 1..16 gives bitwise the sequential fit
+fn check_c11_fit<T: Sc>(ctx: &Ctx, c: &Case, su: &Setup<T>, pools: &[usize]) {
+    let cj = || case_json(c);
+    let seq = match guarded(|| run_fit::<T>(c, su, false, false)) {
+        Ok(Ok(o)) => o,
+        _ => return,
+    };
+    let seq_obs = observe(seq.fit.problem());
+    for &k in pools {
+        let pool = rayon::ThreadPoolBuilder::new().num_threads(k).build().expect("pool");
+        let r = guarded(|| {
+            pool.install(|| {
+                let p = prob::build(make_t::<T>(&su.spec, c.prov, &su.a0), &su.y, su.w.as_ref(), None, su.api, true).unwrap();
+                let before = observe(p.as_ref());
+                let conv = observe(p.clone_box().into_sequential().as_ref());
+                (before == conv, p.fit(c.solver.make::<T>()))
+            })
+        });
+        ctx.with(|s| {
+            s.inc("evaluations");
+            s.bucket("pool_size", &format!("{:02}", k));
+        });
+        let (conv_ok, par) = match r {
+            Ok(x) => x,
+            Err(m) => {
+                ctx.with(|s| s.violate("C11", "panic:parallel-fit", cj(), m));
+                continue;
+            }
+        };
+        if !conv_ok {
+            ctx.with(|s| s.violate("C11", "into-sequential-changes-state", cj(), format!("pool {}: into_sequential() changed the observable state", k)));
+        }
+        if par.termination != seq.fit.termination || par.n_eval != seq.fit.n_eval {
+            ctx.with(|s| s.violate("C11", "parallel-fit-termination-differs", cj(), format!("pool {}: parallel {} after {} evaluations, sequential {} after {}", k, par.termination, par.n_eval, seq.fit.termination, seq.fit.n_eval)));
+            continue;
+        }
+        if observe(par.problem()) != seq_obs || par.objective.bits() != seq.fit.objective.bits() {
+            ctx.with(|s| s.violate("C11", "parallel-fit-result-differs", cj(), format!("pool {}: fitted parameters / coefficients / residuals / Jacobian differ bitwise from the sequential fit", k)));
+            continue;
+        }
+        ctx.with(|s| s.inc("distinct_nontrivial"));
+    }
+}
+
 fn truths(fam: &Family, thorough: bool) -> Vec<(Vec<f64>, Vec<f64>)> {
     let mut v = vec![];
     let c12: &[f64] = if thorough { &[0.5, 1.0, 3.0, 5.0] } else { &[1.0, 3.0] };
@@ -577,6 +773,16 @@ fn c04_cases(thorough: bool, v: &mut dyn FnMut(Case)) {
 fn dispatch<T: Sc>(ctx: &Ctx, c: &Case, prop: &str, seed: u64) {
     let su = setup::<T>(c, seed);
     let cj = case_json(c);
+    match prop {
+        "C06" => return check_c06_fit(ctx, c, &su),
+        "C07" => return check_c07_fit(ctx, c, &su),
+        "C11" => {
+            let all: Vec<usize> = (1..=16).collect();
+            let few = [1usize, 2, 3, 16];
+            return check_c11_fit(ctx, c, &su, if ctx.args.thorough() { &all } else { &few });
+        }
+        _ => {}
+    }
     let r = guarded(|| run_fit::<T>(c, &su, c.par, true));
     ctx.with(|s| s.inc("evaluations"));
     let o = match r {
@@ -643,6 +849,43 @@ fn main() {
                 c05_cases(false, &mut |c| {
                     k += 1;
                     if k % 3 == 0 {
+                        visit(c)
+                    }
+                });
+            }
+            "C06" => {
+                // slice of the C05 grid with every weight kind the property names
+                let mut k = 0u64;
+                c05_cases(false, &mut |mut c| {
+                    k += 1;
+                    let kinds = [WKind::Ones, WKind::Threes, WKind::Ramp, WKind::InvSigma, WKind::Spread, WKind::Tiny, WKind::Dyadic, WKind::NegAt(3)];
+                    if c.w != WKind::None && (thorough || k % 4 == 0) {
+                        c.w = kinds[(k as usize / 4) % kinds.len()];
+                        visit(c)
+                    }
+                });
+            }
+            "C07" => {
+                let mut k = 0u64;
+                c05_cases(false, &mut |mut c| {
+                    k += 1;
+                    if c.coefs.len() >= 2 && (thorough || k % 3 == 0) {
+                        c.mrhs_api = true;
+                        visit(c)
+                    }
+                });
+            }
+            "C11" => {
+                let mut k = 0u64;
+                c05_cases(false, &mut |c| {
+                    k += 1;
+                    if c.par && (thorough || k % 6 == 0) {
+                        visit(c)
+                    }
+                });
+                c04_cases(false, &mut |c| {
+                    k += 1;
+                    if c.par && (thorough || k % 4 == 0) {
                         visit(c)
                     }
                 });
